@@ -169,6 +169,7 @@ def format_code(
     if re.search(r"#\s*pyrefact\s*:\s*skip_file", source):
         return source
 
+    unformatted_source = source
     source = source.expandtabs(4)
     source = rmspace.format_str(source)
     source = fixes.fix_too_many_blank_lines(source)
@@ -186,6 +187,9 @@ def format_code(
 
     if not core.is_valid_python(source):
         logger.debug("Result is not valid python.")
+        if core.is_valid_python(unformatted_source):
+            return unformatted_source  # It is the layout changes above that broke it
+
         return source
 
     if safe:
